@@ -178,7 +178,7 @@ func lex(src string) ([]tok, error) {
 			}
 		case unicode.IsLetter(c) || c == '_':
 			j := i
-			for j < len(rs) && (unicode.IsLetter(rs[j]) || unicode.IsDigit(rs[j]) || rs[j] == '_') {
+			for j < len(rs) && (unicode.IsLetter(rs[j]) || unicode.IsDigit(rs[j]) || rs[j] == '_' || rs[j] == '$') {
 				j++
 			}
 			ts = append(ts, tok{"id", string(rs[i:j])})
